@@ -192,7 +192,9 @@ def translate(cfg, outdir):
                                             "CXXConversionDecl"):
             parts = u["name"].split("::")
             cls = tm.struct_tag(parts[-2])
-        static = node.get("storageClass") == "static"
+        static = node.get("storageClass") == "static" or any(
+            o.get("kind") == "CXXMethodDecl" and o.get("storageClass") == "static" and o.get("name") == node.get("name") and
+            o.get("mangledName") == node.get("mangledName") for o in objs)  # `static` is written on the in-class declaration only
         if node["kind"] == "CXXConstructorDecl":
             cname = u.get("cname") or em.fn_cname(cls, "ctor", node["type"]["qualType"])
         else:
@@ -323,8 +325,12 @@ def translate(cfg, outdir):
             defs[tag] = ("struct %s { char __opaque; };\n" % tag, [])
     h += topo(defs)
     h += enum_defs
+    for an, (ect, cnt) in sorted(tm.carr_insts.items()):
+        h.append("typedef %s %s[%s];" % (ect, an, cnt))
     for n, v in sorted(eval_constants(cfg, em.const_needed, outdir).items()):
-        h.append("#define VFC_%s (%d) /* %s, evaluated by g++ */" % (ident(n), v, cfg["const_globals"][n]["expr"]))
+        ct = em.const_types.get(n)
+        lit = "((%s)%d)" % (ct, v) if ct and ct != "int" and not ct.startswith("struct") and "*" not in ct else "(%d)" % v
+        h.append("#define VFC_%s %s /* %s, evaluated by g++ */" % (ident(n), lit, cfg["const_globals"][n]["expr"]))
     for i, k in enumerate(sorted(em.exc_kinds)):
         h.append("#define %s (%d)" % (k, 2 + i))
     h.append(models.gen_funcs(tm, lib))
